@@ -275,8 +275,18 @@ func CheckC15(tier string) int {
 					hdr := of.Header(of.Height(), latest)
 					msg, err := clienttypes.NewMsgUpdateClient(target, hdr, s.acc.Addr)
 					must(err)
+					// reference registry, from the history of governance operations (not from the implementation's lookup)
+					reg := map[string][]string{B: {relB.Addr.String()}, C: {relB.Addr.String(), onlyC.Addr.String()}, B + "2": {a.Accounts[3].Addr.String()}}
+					for _, l := range n.path {
+						switch l {
+						case "register-relayer-for-existing-chain":
+							reg[B] = []string{arb.Addr.String()}
+						case "register-relayer-for-unknown-chain":
+							reg["uchainuuu"] = []string{arb.Addr.String()}
+						}
+					}
 					registered := false
-					for _, r := range ca.App.TIBCKeeper.ClientKeeper.GetRelayers(ca.ReadCtx(w.Now), target) {
+					for _, r := range reg[target] {
 						if r == s.acc.Addr.String() {
 							registered = true
 						}
